@@ -80,7 +80,7 @@ Definition total_sectors (s:st) : Z := Gen.get_total_sectors (s_h s).
 Definition count_of_clusters (s:st) : Z := (total_sectors s - first_data_sector (s_p s)) / BPB_SecPerClus (s_h s).
 Definition max_cluster (s:st) : Z := count_of_clusters s + 1.
 
-(** * Chain follower ([get_cluster_chain]); fuel = length of the FAT + 1 *)
+(** * Chain follower ([get_cluster_chain]); at most as many clusters as the FAT has entries *)
 Definition is_data (t v:Z) : bool := (Gen.MIN_DATA_CLUSTER t <=? v) && (v <=? Gen.MAX_DATA_CLUSTER t).
 Definition is_eoc (t v:Z) : bool :=
   ((t =? Gen.FAT_TYPE_FAT12) && (v =? Gen.FAT12_SPECIAL_EOC)) || ((Gen.END_OF_CLUSTER_MIN t <=? v) && (v <=? Gen.END_OF_CLUSTER_MAX t)).
@@ -94,19 +94,23 @@ Fixpoint chain_go (fuel:nat) (t:Z) (fat:list Z) (i:Z) : list Z * bool :=
     else if is_eoc t v then ([i], true) else ([], false)
   end.
 (** (clusters yielded before the generator stops, true iff it stopped at an end-of-chain mark) *)
-Definition chain (s:st) (c:Z) : list Z * bool := chain_go (S (length (s_fat s))) (ft s) (s_fat s) c.
+Definition chain (s:st) (c:Z) : list Z * bool := chain_go (length (s_fat s)) (ft s) (s_fat s) c.
 Definition chain_all (s:st) (c:Z) : res (list Z) :=
   let '(l, ok) := chain s c in if ok then Ok l else Err EPYFAT.
 
 (** * Allocator ([allocate_bytes]) — scan from the hint for [n] free in-range clusters *)
-Fixpoint alloc_scan (fuel:nat) (fat:list Z) (t maxc i:Z) (need:nat) : list Z :=
-  match fuel, need with
-  | _, O => []
-  | O, _ => []
-  | S f, S nd =>
+Fixpoint alloc_scan (fuel:nat) (fat:list Z) (t maxc i:Z) (need:nat) : list Z * Z :=
+  match fuel with
+  | O => ([], i - 1)
+  | S f =>
     if (i <? Gen.MIN_DATA_CLUSTER t) || (Z.min maxc (Gen.MAX_DATA_CLUSTER t) <? i) then alloc_scan f fat t maxc (i + 1) need
-    else if nthZ fat i =? Gen.FREE_CLUSTER t then i :: alloc_scan f fat t maxc (i + 1) nd
-    else alloc_scan f fat t maxc (i + 1) need
+    else match need with
+         | O => ([], i)
+         | S nd =>
+           if nthZ fat i =? Gen.FREE_CLUSTER t
+           then (let '(l, j) := alloc_scan f fat t maxc (i + 1) nd in (i :: l, j))
+           else alloc_scan f fat t maxc (i + 1) need
+         end
   end.
 Fixpoint link_chain (fat:list Z) (cs:list Z) (eoc:Z) : list Z :=
   match cs with
@@ -123,10 +127,9 @@ Definition allocate (s:st) (size:Z) (erase:bool) : res (list Z * st) :=
   if s_ro s then Err EROFS else
   let n := Gen.calc_num_clusters (s_p s) size in
   let hint := Z.max 0 (s_hint s) in
-  let cs := alloc_scan (Z.to_nat (lenZ (s_fat s) - hint)) (s_fat s) (ft s) (max_cluster s) hint (Z.to_nat n) in
+  let '(cs, j) := alloc_scan (Z.to_nat (lenZ (s_fat s) - hint)) (s_fat s) (ft s) (max_cluster s) hint (Z.to_nat n) in
   if negb (lenZ cs =? n) then Err ENOSPC else
-  let last := last cs 0 in
-  let s1 := upd_fat s (link_chain (s_fat s) cs (Gen.END_OF_CLUSTER_MAX (ft s))) last in
+  let s1 := upd_fat s (link_chain (s_fat s) cs (Gen.END_OF_CLUSTER_MAX (ft s))) j in
   if erase then (do s2 <- erase_clusters s1 cs; Ok (cs, s2)) else Ok (cs, s1).
 
 Definition free_chain (s:st) (c:Z) : res st :=
